@@ -34,7 +34,7 @@ MC_INVARIANTS = ["ChooseLaws", "ChooseEarlyReturn", "RationalLaw", "FieldLagrang
 
 def params(tr):
     if tr == "quick":
-        return dict(MaxN=6, VecN=8, FullMax=3000, nsample=4, RecN=8, rec_reps=2, DkgN=5, dkg_reps=2, ps_all_subsets_n=5, ps_sample=10, workers=8)
+        return dict(MaxN=6, VecN=8, FullMax=1400, nsample=4, RecN=8, rec_reps=2, DkgN=5, dkg_reps=2, ps_all_subsets_n=5, ps_sample=10, workers=8)
     return dict(MaxN=6, VecN=8, FullMax=120000, nsample=12, RecN=8, rec_reps=8, DkgN=6, dkg_reps=8, ps_all_subsets_n=6, ps_sample=0, workers=8)
 
 
